@@ -24,7 +24,7 @@ from ..comp import obsplit as OB
 from ..comp import obsplit2 as OB2
 from ..comp import blocksplit as BK
 THEOREMS = THEOREMS + OB.THEOREMS_C14_ORDERS + OB2.THEOREMS_C14_ORDERS2 + BK.THEOREMS_C14_BLOCKS
-PARTIAL = ['for portfolios of the five contract / transport builder classes (SimpleContract, Contract, MultiCommodity, Transport, ExtendedTransport, freq = None) the relation to the unsplit problem IS a theorem about the builders (EAO.C14B.split_equals_unsplit_builders under the decidable hypotheses splitHyps: same one-/two-variable form in every interval, no array parameter of the grid\'s length, every take period inside one interval, positive step lengths; each hypothesis has a machine-checked example showing it is needed); for LP storages next to them it is a theorem as well (EAO.C14S.split_le_unsplit_builders: the split set-up is the unsplit portfolio with every storage in restart form; with start level = end level in [0, size], cost_store = 0 and intervals that tile the storage\'s steps the concatenated interval solutions are feasible for the unsplit problem with the same value, hence split <= unsplit; the exact cost relation with holding costs is storage_split_value(_const); machine-checked counterexamples for start != end, start < 0, cost_store != 0); for all other assets (storages with blocks or MIP options, plants, order books, wrappers) the relation to the UNSPLIT problem is decided by per-instance certificates, not by a theorem about the builders: split = unsplit (value and dispatch) by theorem split_equals_unsplit(_bool) under the decidable witness splitWitness, split <= unsplit (and: the concatenated split solution satisfies every row and bound of the unsplit problem) by split_solution_le_unsplit(C)(_bool) under splitLeWitness(C) with exact row-implication multipliers; the driver evaluates the witnesses EXACTLY on the real unsplit problem and the real interval problems of every case of the uncoupled resp. storage streams (a false witness there is reported as a broken tie). Outside the certificates, on the numerical oracle only: cases in which the unsplit problem needs the two-variable form of a contract and an interval gets by with one variable (different variable sets, no matching), and storages with holding costs whose float cost vectors differ from an exact multiple of the end-level rows by rounding noise. The shortcut io.optimize and the DataFrame form of the price data are covered by the numerical / exact-comparison oracles on the real code only (no model of io.optimize or of Timegrid.prices_to_grid is involved in C14); of the shortcut result the value, the steps and the columns of the dispatch table are compared with the direct split path, not the dispatch numbers (degenerate optima)']
+PARTIAL = ['for portfolios of the five contract / transport builder classes (SimpleContract, Contract, MultiCommodity, Transport, ExtendedTransport, freq = None) the relation to the unsplit problem IS a theorem about the builders (EAO.C14B.split_equals_unsplit_builders under the decidable hypotheses splitHyps: same one-/two-variable form in every interval, no array parameter of the grid\'s length, every take period inside one interval, positive step lengths; each hypothesis has a machine-checked example showing it is needed); for LP storages next to them it is a theorem as well (EAO.C14S.split_le_unsplit_builders: the split set-up is the unsplit portfolio with every storage in restart form; with start level = end level in [0, size], cost_store = 0 and intervals that tile the storage\'s steps the concatenated interval solutions are feasible for the unsplit problem with the same value, hence split <= unsplit; the exact cost relation with holding costs is storage_split_value(_const); machine-checked counterexamples for start != end, start < 0, cost_store != 0); for order books whose orders each lie inside one interval it is a theorem too (EAO.C14O2.split_equals_unsplit_orderbooks_builders about the interval problems of the asset problems; the identification of the literal split output with them modulo inert variables, EAO.C14O.split_equals_unsplit_orderbooks, still takes the decidable witness splitWitnessModInert, evaluated per case); storages with time blocks are modelled with the block starts recomputed per interval, the statement `aligned blocks => witness` is a TARGET evaluated per case (oracle aligned_witness), its consequence under the witness is EAO.C14K.blocks_aligned_split_equals_unsplit_partial; for all other assets (storages with MIP options, plants, wrappers) the relation to the UNSPLIT problem is decided by per-instance certificates, not by a theorem about the builders: split = unsplit (value and dispatch) by theorem split_equals_unsplit(_bool) under the decidable witness splitWitness, split <= unsplit (and: the concatenated split solution satisfies every row and bound of the unsplit problem) by split_solution_le_unsplit(C)(_bool) under splitLeWitness(C) with exact row-implication multipliers; the driver evaluates the witnesses EXACTLY on the real unsplit problem and the real interval problems of every case of the uncoupled resp. storage streams (a false witness there is reported as a broken tie). Outside the certificates, on the numerical oracle only: cases in which the unsplit problem needs the two-variable form of a contract and an interval gets by with one variable (different variable sets, no matching), and storages with holding costs whose float cost vectors differ from an exact multiple of the end-level rows by rounding noise. The shortcut io.optimize and the DataFrame form of the price data are covered by the numerical / exact-comparison oracles on the real code only (no model of io.optimize or of Timegrid.prices_to_grid is involved in C14); of the shortcut result the value, the steps and the columns of the dispatch table are compared with the direct split path, not the dispatch numbers (degenerate optima)']
 COMPONENTS = ['per-interval assemble on captured asset problems vs the interval problems of setup_split_optim_problem', 'index shift / original step numbers of the joint mapping', 'split-witness: exact evaluation of splitWitness (unsplit real problem renamed along the matching of the variables = block sum of the real interval problems)', 'split-le-witness: exact evaluation of splitLeWitness(C) (every unsplit row implied by interval rows with explicit multipliers found numerically)']
 RULE = ('random portfolios x interval sizes (aligned and not aligned with the horizon, incl. partial last interval); three streams: uncoupled assets only (value and dispatch equal to unsplit), storages with start=end level as only coupling (split <= unsplit, concatenated solution feasible for unsplit), anything (sum of interval optima, balance, limits, original steps); '
         'in 6 of 10 cases of the uncoupled (outside its fixed-scale variant) and of the anything stream plants / CHPs WITH a fuel node are added whose fuel efficiency, fuel consumption when on / per start, conversion factor, heat share, start and running costs '
